@@ -8,6 +8,7 @@ CONSTANTS
   ScratchVals = {0}
   ArgCounts = {0, 1, 7}
   SingleCounts = {7}
+  HistSites = {}
   RotStep = 5
   Emit = FALSE
   Strict = TRUE
